@@ -45,6 +45,13 @@ func newWorld(c *sim.Ctx, followers int, opt worldOpts) *world {
 
 	burn := []uint32{10, 20, 100}
 	size := []uint32{32768, 65536}
+	if opt.smallSizes {
+		size = []uint32{1024, 2048}
+		// the node refuses limits below the user transaction limit, which is itself configurable down to 1024
+		old := params.UserVerifyTxn
+		params.UserVerifyTxn.MaxTransactionSize = 1024
+		w.restoreParams = func() { params.UserVerifyTxn = old }
+	}
 	dec := []uint8{3, 6}
 	w.mcfg = model.Config{
 		PubKey:       w.pubKey.pub,
@@ -86,6 +93,9 @@ func newWorld(c *sim.Ctx, followers int, opt worldOpts) *world {
 type worldOpts struct {
 	before     func(w *world) // runs after keys and parameters are drawn, before the nodes are created
 	hugeWeight int
+	// smallSizes: transaction and block size limits at / near their legal minimum (1024 bytes), so that the
+	// legal minimum of the outgoing message length is small too
+	smallSizes bool
 }
 
 func clientPtrs(ks []key) []*key {
